@@ -60,6 +60,24 @@ HISTORY_PAIRS = [
 ]
 
 
+def _sw(values):
+    return [{"processor": "TSource", "derive": {"parameter_sweep": {"parameters": {"v": "x"}, "collection": "TColl",
+                                                                     "variables": {"x": values}}}}]
+
+
+# sweep domains that are equal under Python's == (and hash alike) but are different values: 1 / 1.0 / True, 0.0 / -0.0,
+# and the same sequence in a 2-variable sweep.  X after Y must be X of a fresh process (nothing keyed by == may be shared).
+HISTORY_PAIRS += [
+    (_sw([1.0, 2.0, 3.0]), _sw([1, 2, 3])),
+    (_sw([1, 2, 3]), _sw([1.0, 2.0, 3.0])),
+    (_sw([True, 2, 3]), _sw([1, 2, 3])),
+    (_sw([0, 1, 5]), _sw([False, True, 5])),
+    (_sw([-0.0, 1.5]), _sw([0.0, 1.5])),
+    (_sw([0, 1.5]), _sw([0.0, 1.5])),
+    (_sw([1, 2, 3, 4, 5, 6, 7.0]), _sw([1, 2, 3, 4, 5, 6, 7])),
+]
+
+
 def start_ids(nodes, ctx0=None, pipeline=None):
     """ids attached to pipeline_start of a traced run (the run itself may fail later)."""
     pipegen.setup()
